@@ -72,7 +72,7 @@ CLAIMED["C07"] = (
     "Every row of a pairwise (quick) / 3-wise (thorough) covering array of kernel x resampler x clustering x evaluation mode x boundary types x "
     "metric x zero-likelihood region x dimension is executed as a full run with a case seed; after resample, after mutate, at commit, on "
     "parallel_mcmc's return value and on everything sample()/posterior(16 option combinations)/results() return, each particle must satisfy "
-    "x == pt(u), logl == L(x), blob == b(x) exactly and u in [0,1]^d. Exactness is possible because the target is instrumented. A second check (*_full) applies the same oracle to complete random configurations from vlib.cfggen, in which every constructor option (all evaluation modes incl. two blobs, metric mode, cluster cadence and caps, odd particle counts, step limits, boundary index lists, pool kinds, extra likelihood arguments, integer / NumPy-integer / no random_state) gets a generated value in every case.",
+    "x == pt(u), logl == L(x), blob == b(x) exactly and u in [0,1]^d. Exactness is possible because the target is instrumented. Blobs come in six forms (float with / without blobs_dtype, two floats, structured dtype, one array-valued blob with a sub-array dtype, variable-length strings). A third of the complete-configuration cases give the sampler a second life: a sibling run's checkpoint is loaded into the used object, then posterior() and one more sample() must still return and store whole records. A second check (*_full) applies the same oracle to complete random configurations from vlib.cfggen, in which every constructor option (all evaluation modes incl. two blobs, metric mode, cluster cadence and caps, odd particle counts, step limits, boundary index lists, pool kinds, extra likelihood arguments, integer / NumPy-integer / no random_state) gets a generated value in every case.",
     "Observation points are wrapped at run time (no source hooks); a refactor that removes them yields exit 2, not a violation.",
     "DESIGN.md §2 C07",
 )
@@ -82,7 +82,7 @@ CLAIMED["C12"] = (
     "After each generated run the postconditions (|1-beta|<1e-4, reference ESS of the reference weights >= n_total, evidence() == reference MIS "
     "evidence at beta=1) are checked, then posterior() is called with all 16 option combinations and seed-drawn trimming parameters: arity, equal "
     "lengths, probability weights, uniform weights after resampling, and row-by-row alignment of x/logl/blob (exact, instrumented target) and of "
-    "the log-weights (each equals the reference MIS log-weight of its own sample). A second check (*_full) applies the same oracle to complete random configurations from vlib.cfggen, in which every constructor option (all evaluation modes incl. two blobs, metric mode, cluster cadence and caps, odd particle counts, step limits, boundary index lists, pool kinds, extra likelihood arguments, integer / NumPy-integer / no random_state) gets a generated value in every case.",
+    "the log-weights (each equals the reference MIS log-weight of its own sample). Sequences of run() calls (first request with checkpoints, a fresh sampler resumed with another request, the same object resumed again with a larger one) owe the postconditions of each request; the posterior() contract is also demanded after one more sample(). A second check (*_full) applies the same oracle to complete random configurations from vlib.cfggen, in which every constructor option (all evaluation modes incl. two blobs, metric mode, cluster cadence and caps, odd particle counts, step limits, boundary index lists, pool kinds, extra likelihood arguments, integer / NumPy-integer / no random_state) gets a generated value in every case.",
     "Reference = vlib.refs (long double). The log-weight alignment relies on the MIS weight being a function of logl alone.",
     "DESIGN.md §2 C12",
 )
@@ -92,7 +92,7 @@ CLAIMED["C11"] = (
     "Supported fraction, warm-up length (ess_ratio), N, kernel and evaluation mode are generated; the instrumented likelihood counts finite/total "
     "per prior batch; every log-evidence recorded at beta=0 must lie in the range of the batch fractions seen so far (counted once), no stored "
     "log-likelihood may be -inf, and the final evidence is tested against the analytic value over independently seeded runs. A second check (*_full) applies the same oracle to complete random configurations from vlib.cfggen, in which every constructor option (all evaluation modes incl. two blobs, metric mode, cluster cadence and caps, odd particle counts, step limits, boundary index lists, pool kinds, extra likelihood arguments, integer / NumPy-integer / no random_state) gets a generated value in every case.",
-    "A prior batch without any finite draw is outside the claim and skipped (counted). The ensemble part has a stated statistical resolution.",
+    "A prior batch without any finite draw is reported (finding K7: the -inf particles are kept and the batch evidence becomes log 0); ensembles skip such replicas. The ensemble part has a stated statistical resolution.",
     "DESIGN.md §2 C11",
 )
 CLAIMED["C09"] = (
@@ -137,7 +137,10 @@ CLAIMED["C08"] = (
     "property-based testing (Hypothesis) of save/load/resume differentials against snapshots taken at save time + exhaustive process-death injection (forked child dies before/after every IO call and at byte offsets inside every write) against a loadable-old-or-new oracle",
     "Every checkpoint written by a generated run (all indices and the final one; pool objects, integer pools, blobs, clustering) is loaded into "
     "a freshly constructed sampler and compared bit for bit with a snapshot taken at the moment of the save, then resumed from (prefix "
-    "bit-identical, contiguous iteration numbers, calls = restored + counted, monotone beta, run postconditions). The save itself is executed "
+    "bit-identical, contiguous iteration numbers, calls = restored + counted, monotone beta, run postconditions). In half of the cases the sampler "
+    "object that wrote the checkpoints lives on: a sibling run's checkpoint is loaded into it (it must then equal a fresh sampler that loaded the "
+    "same file: state, posterior() outputs, next sample() under the same stream) and it is rewound to one of its own checkpoints and writes "
+    "checkpoints again, each of which must restore the state that existed when it was rewritten. The save itself is executed "
     "in a forked child once per crash point: the IO calls it makes are enumerated by a dry run and the child is killed before and after each "
     "one and at offsets inside each write, with the final name absent or holding an older checkpoint; the final name must then be absent or "
     "hold a complete checkpoint equal to the old or the new state. Enumeration is exhaustive over IO-call boundaries, sampled inside writes.",
